@@ -189,11 +189,20 @@ def evaluate(case):
 # ------------------------------------------------------------------ generators
 
 
+ODD_NAMES = ["O'Brien", "D'Amato", "Pe\u00f1a", "M\u00fcller", "Wal-Mart", "McDonald", "Nu\u00f1ez", "S\u00f8rensen", "Stra\u00dfer", "O\u2019Connor", "Garc\u00eda",
+             "Kovi\u0107", "DeShaney", "L'Enfant"]
+
+
 @st.composite
 def _names(draw, n):
     used = []
     while len(used) < n:
-        name = "".join(draw(st.lists(st.sampled_from(SYL), min_size=2, max_size=3))).capitalize()
+        if draw(st.integers(0, 4)) == 0:
+            # real-world shapes: apostrophes, hyphens, inner capitals, accented letters (first letter ASCII, as the
+            # short-form antecedent pattern requires)
+            name = draw(st.sampled_from(ODD_NAMES))
+        else:
+            name = "".join(draw(st.lists(st.sampled_from(SYL), min_size=2, max_size=3))).capitalize()
         if len(name) > 3 and all(name not in u and u not in name for u in used):
             used.append(name)
     return used
